@@ -255,3 +255,40 @@ def rule(cfg, which):
             res.functions.add(sig)
     res.count('functions analysed', len(an.flows))
     return res
+
+
+def lock6(cfg):
+    """LOCK-6 deferred free only: in the OLC instantiation an EXISTING (published) node is never wrapped in an owner with the
+    immediate deleter, outside the single-threaded teardown path"""
+    res = RuleResult('LOCK-6', 'in the OLC instantiation, nodes that were ever reachable are released only through QSBR (reclaimable pointers); the immediate deleter is applied to an existing node only in the single-threaded teardown (delete_subtree)')
+    SINGLE = ('delete_db_node_ptr_at_scope_exit', 'delete_subtree', 'delete_root_subtree', 'clear', '~olc_db')
+    n = 0
+    for f in cfg.functions:
+        if not f.blocks or not ('olc_node_header' in f.sig or 'unodb::olc_db<' in f.sig or 'olc_inode' in f.sig):
+            continue
+        for b, i, e in f.elements():
+            if e.get('k') != 'call' or forwarders.is_assert_elem(e):
+                continue
+            nm = e.get('name')
+            if nm not in ('make_db_inode_unique_ptr', 'make_db_leaf_ptr', 'free_aligned'):
+                continue
+            tg = f.callee(e)
+            csig = f.callee_sig(e) or ''
+            existing = False
+            if nm == 'make_db_inode_unique_ptr':
+                # the overload taking (INode *, db &) wraps an existing node; the allocating one takes (db &, args...)
+                existing = bool(re.search(r'make_db_inode_unique_ptr<[^(]*\((?:unodb::detail::)?[^,()]*inode[^,()]* \*,', csig)) or (tg is not None and tg.params and tg.params[0]['t'].rstrip().endswith('*'))
+            elif nm == 'make_db_leaf_ptr':
+                existing = tg is not None and len(tg.params) == 2 and tg.params[0]['t'].rstrip().endswith('*')
+            elif nm == 'free_aligned':
+                existing = not (f.short == 'operator()' or f.cls.startswith('unodb::qsbr') or f.short in ('deallocate', 'ensure_capacity') or 'key_encoder' in f.cls or 'key_buffer' in f.cls or f.d.get('dtor'))
+            if not existing:
+                continue
+            n += 1
+            single = any(s in f.name for s in SINGLE)
+            res.ob(single, {'rule': 'LOCK-6', 'function': sh(f.name)[:110], 'site': fileline(e.get('loc')), 'callee': nm, 'verdict': 'single-threaded teardown' if single else 'VIOLATION'})
+            if not single:
+                res.find(f, e.get('loc'), 'an existing OLC node is wrapped in an owner with the IMMEDIATE deleter (%s): it is freed at scope exit although readers that have not passed a quiescent state may still hold pointers to it (use-after-free); replaced / removed nodes must go through the QSBR-deferring reclaimable pointer' % nm, key='LOCK-6:immediate-free:%s' % f.short, config=cfg.name)
+    res.count('immediate-owner sites on existing OLC nodes', n)
+    res.floor('immediate-owner sites on existing OLC nodes', 1)
+    return res
